@@ -44,13 +44,6 @@ enum OpCode
   OP_SWEEP = 9   // [9,seed]        ALL bins of the current geometry in a pseudo-random order
 };
 
-inline bool
-no_exclude()
-{
-  static const bool v = std::getenv("VERIF_NO_EXCLUDE") != nullptr;
-  return v;
-}
-
 const double SCREEN = 1e-3; // voxel units, from the property text / DESIGN "Tie screen"
 
 // calibrated tolerance (see props.d/C03.py level_note and the final report): relative to the row maximum
@@ -188,6 +181,13 @@ screen_one_bin(const Ref& R, const Bin& bin, double& kappa)
       nac.get_det_num_pair_for_view_tangential_pos_num(d1, d2, bin.view_num(), bin.tangential_pos_num());
       phi = (d1 + d2) * _PI / ndet - _PI / 2 + nac.get_azimuthal_angle_offset();
       s = R_eff * std::sin((d1 - d2) * _PI / ndet + _PI / 2);
+      // detector numbers are modulo ndet: (phi +- pi, -s) is brought back to the branch of get_phi (as the matrix does)
+      const double old_phi = pdi.get_phi(bin);
+      if (std::fabs(phi - old_phi) > _PI / 2)
+        {
+          phi += phi > old_phi ? -_PI : _PI;
+          s = -s;
+        }
     }
   const double cphi = std::cos(phi), sphi = std::sin(phi);
   const double tantheta = pdi.get_tantheta(bin);
@@ -832,12 +832,6 @@ gen_config(Src& s, int size)
   c["lors"] = int(s.small(1, 4));
   c["cyl_fov"] = s.chance(3, 4);
   c["adb"] = s.chance(1, 8);
-  if (c["adb"].get<bool>() && !no_exclude())
-    { // known finding C03-F2 (see known_signature below): excluded by construction, the rest of the search goes on with the flag
-      c["sym"][0] = 0;
-      c["sym"][1] = 0;
-      c["sym"][3] = 0;
-    }
   return c;
 }
 
@@ -897,10 +891,7 @@ gen(Src& s, int size)
       else if (r < 89)
         {
           op.push_back(OP_SYM);
-          long k = s.range(0, 4);
-          if (c["adb"].get<bool>() && !no_exclude() && (k == 0 || k == 1 || k == 3))
-            k = s.coin() ? 2 : 4; // known finding C03-F2: by construction
-          op.push_back(k);
+          op.push_back(s.range(0, 4));
         }
       else if (r < 95)
         {
@@ -1042,38 +1033,6 @@ nontrivial(const json& c)
   return sym_on && gets;
 }
 
-// KNOWN FINDING C03-F2 (known/C03/actual_detector_boundaries_sym90.json, work/notes/C03_findings.md):
-// with use_actual_detector_boundaries the LOR of a bin is the line between the detector centres, which for odd
-// tangential positions is rotated by half a view w.r.t. the interleaved sinogram coordinate; the view symmetries
-// (90-phi, 180-phi) and swap_s mirror the sinogram coordinates and stay enabled, so derived rows belong to another LOR.
-// Signature = exactly that class: the flag is requested, it can become effective (one of the two data geometries is
-// non-arc-corrected, span 1, unmashed - set_up resets the flag otherwise) and one of the three switches is on at some
-// point of the history.  The generator avoids the class by construction; VERIF_NO_EXCLUDE=1 lifts both.
-std::string
-known_signature(const json& c)
-{
-  if (no_exclude() || !c.value("adb", false))
-    return "";
-  bool effective = false;
-  for (const char* g : { "A", "B" })
-    {
-      const json& p = c[std::string("pdi") + g];
-      const json& sc = c[std::string("sc") + g];
-      if (!p["arccorr"].get<bool>() && p["span"].get<int>() == 1 && sc.value("type", -1) < 0 && p["views"].get<int>() == sc["ndet"].get<int>() / 2)
-        effective = true;
-    }
-  if (!effective)
-    return "";
-  bool on = c["sym"][0].get<int>() != 0 || c["sym"][1].get<int>() != 0 || c["sym"][3].get<int>() != 0;
-  for (const json& op : c["ops"])
-    if (op.is_array() && op.size() >= 2 && op[0].get<int>() == OP_SYM)
-      {
-        const long k = ((op[1].get<long>() % 5) + 5) % 5;
-        on = on || k == 0 || k == 1 || k == 3;
-      }
-  return on ? "C03:actual-detector-boundaries:view-or-s-symmetry" : "";
-}
-
 } // namespace
 
 const Property&
@@ -1086,7 +1045,6 @@ the_property()
   p.nontrivial = nontrivial;
   p.enumerate = enumerate;
   p.shrink_lists = { "ops" };
-  p.known_signature = known_signature;
   p.rule = "history contains at least one request and at least one symmetry switch is on at some point";
   return p;
 }
